@@ -19,18 +19,19 @@ def _owners():
         _OWN['dig'] = c09.check
         for op in ('aead_enc', 'aead_dec', 'aead_inc'):
             _OWN[op] = c06.check
-        for op in ('hkdf_extract', 'hkdf_expand', 'pbkdf2', 'scrypt'):
+        for op in ('hkdf_extract', 'hkdf_expand', 'pbkdf2', 'scrypt', 'scrypt_big', 'pbkdf2_big'):
             _OWN[op] = c10.check
         _OWN['argon2'] = c11.check
         _OWN['argon2b'] = c11.check
+        _OWN['argon2_accept'] = c11.check
         for op in ('x25519', 'x25519_base', 'x_dh', 'x_dhc', 'x_base', 'x25519_iter'):
             _OWN[op] = c12.check
         for op in ('ed_keypair', 'ed_sign', 'ed_sign_ext', 'ed_ext_pub', 'ed_exchange'):
             _OWN[op] = c13.check
         _OWN['ed_verify'] = c14.check
-        for op in ('fe', 'consts', 'sc_reduce', 'sc_canon', 'sc_rt', 'ge_base', 'ge_dsm', 'ge_chain', 'ge_decode', 'ge_table', 'ge_select'):
+        for op in ('fe', 'consts', 'sc_reduce', 'sc_muladd', 'sc_canon', 'sc_rt', 'ge_base', 'ge_dsm', 'ge_chain', 'ge_prog', 'ge_decode', 'ge_table', 'ge_select'):
             _OWN[op] = c15.check
-        for op in ('ct_u8_table', 'ct_u64', 'ct_arr', 'ct_slice', 'ct_u64arr', 'ct_u64slice', 'choice', 'ctopt', 'swap64', 'swap32', 'set64', 'set32', 'macres_eq', 'tag_eq'):
+        for op in ('ct_u8_table', 'ct_u64', 'ct_arr', 'ct_slice', 'ct_u64arr', 'ct_u64slice', 'choice', 'ctopt', 'swap64', 'swap32', 'set64', 'set32', 'macres_eq', 'tag_eq', 'ct_arr_at', 'tag_eq_at'):
             _OWN[op] = c18.check
     return _OWN
 
@@ -57,6 +58,6 @@ def check_any(line, toks):
     fn = _owners().get(op)
     if fn is None:
         raise KeyError('no spec checker for op %s' % op)
-    if op in ('hh', 'sc', 'drg', 'mac', 'dig', 'aead_enc', 'aead_dec', 'aead_inc', 'hkdf_extract', 'hkdf_expand', 'pbkdf2', 'scrypt', 'argon2', 'argon2b'):
+    if op in ('hh', 'sc', 'drg', 'mac', 'dig', 'aead_enc', 'aead_dec', 'aead_inc', 'hkdf_extract', 'hkdf_expand', 'pbkdf2', 'scrypt', 'scrypt_big', 'pbkdf2_big', 'argon2', 'argon2b', 'argon2_accept'):
         return fn(body, toks)
     return fn(line, toks)
